@@ -57,14 +57,23 @@ def h_shift(B, cls="EOF", n=4, p=2, k=2, standardize=False, layout="2d"):
     _same(B, "positive affine rescaling per feature" if standardize else "shift per feature", m1, m2)
 
 
-def h_weights(B, cls="EOF", n=4, p=2, k=2, flags=None, layout="2d"):
+def h_weights(B, cls="EOF", n=4, p=2, k=2, flags=None, layout="2d", reorder=False):
     flags = dict(flags or {})
     cplx = cls == "ComplexEOF"
     X, dim, fd = M.make_input(B, layout, n, p, cplx, {})
     w = M.make_weights(B, X, fd)
     if flags.get("standardize"):
         oracle_matrix(X, "time", True, True, B=B)
-    m1 = _fit(cls, X, dim, k, flags, weights=w)
+    if reorder:
+        # the same weights stored with their coordinates in another order: xarray aligns by LABEL
+        def rev(wd):
+            d0 = [d for d in wd.dims][0]
+            return wd.isel({d0: slice(None, None, -1)})
+
+        w_given = [rev(x) for x in w] if isinstance(w, list) else (xr.Dataset({v: rev(w[v]) for v in w.data_vars}) if isinstance(w, xr.Dataset) else rev(w))
+    else:
+        w_given = w
+    m1 = _fit(cls, X, dim, k, flags, weights=w_given)
     # pre-multiplied data: weights act after centring/standardisation, so pre-multiply the prepared anomalies
     if flags.get("standardize"):
         Xa = (X - X.mean("time")) / X.std("time")
@@ -160,6 +169,8 @@ def configs(tier):
     add("h_shift", "EOF|affine|standardize|3d", standardize=True, layout="3d", p=4)
     add("h_weights", "EOF|weights|standardize", flags={"standardize": True}, p=3)
     add("h_weights", "EOF|weights|3d", layout="3d", p=4)
+    add("h_weights", "EOF|weights stored in reversed coordinate order", p=3, reorder=True)
+    add("h_weights", "EOF|weights stored in reversed coordinate order|3d", layout="3d", p=4, reorder=True)
     add("h_weights", "EOF|weights|dataset", layout="dataset", p=4)
     add("h_scale", "EOF|global scale|standardize-off|center-off", flags={"center": False})
     names = ["lat", "latitude"] if tier == "quick" else ["lat", "latitude", "lats", "latitudes"]
